@@ -267,6 +267,15 @@ def rewrite_linalg_structured_to_loops(
 
         rewriter.inline_block(block, insertion_point)
 
+        # The erased yield no longer tracks replacements of its operands: an operand
+        # that is the result of a `linalg.index` is the induction variable it stands for
+        yield_operands = tuple(
+            ind_vars[operand.owner.dim.value.data]
+            if isa(operand.owner, linalg.ops.IndexOp)
+            else operand
+            for operand in yield_op.operands
+        )
+
         for index_op in index_ops:
             rewriter.replace(index_op, (), [ind_vars[index_op.dim.value.data]])
 
@@ -274,7 +283,7 @@ def rewrite_linalg_structured_to_loops(
             rewriter,
             insertion_point,
             ind_vars,
-            yield_op.operands,
+            yield_operands,
             insert_store,
         )
 
